@@ -233,3 +233,30 @@ Example C18_ttx_fault_example :
   Some [([1;2;3]%N, None); ([4;5]%N, Some TfFault); ([], Some TfFault)].
 Proof. reflexivity. Qed.
 Print Assumptions C18_ttx_fault_example.
+(* ---- EBU STL reader, the failing Read delivers bytes together with its error (audit N9a) ----
+   io.Reader allows Read to return (n, err) with n > 0, and does not oblige a stream to repeat an error: after the failing
+   Read it may report end-of-file or go on.  io.ReadFull DROPS an error that arrives with the last requested bytes, so a
+   stream failing exactly at the end of a block (offsets 1024 + 128 i) and reporting end-of-file afterwards made
+   ReadFromSTL return the cues read so far with a nil error (3 cues, failure after 1152 bytes: 1 cue, no error) - a silent
+   truncation, inside this property's quantifier ("fails with an error other than end-of-file at any byte offset").
+   Repaired in the repository (readNBytes keeps the error; seeded/C18-stl-read-error-dropped-with-last-bytes-of-block).
+   C18_read_stl_fault above models "the stream delivers a prefix, then a Read fails without data"; the reader never
+   calls Read again after a failing one, so the statement does not depend on the stream being sticky.
+   read_stl_fail_at_wd (Model/StlIO.v) is the other way of failing: the Read that delivers the last byte of the prefix
+   returns the error with it; a block completed by that byte is not looked at.  Both are errors, and genuine ones (not the
+   out-of-fuel value of the loop).  C18_read_stl_fault_example: the audit's file, and the same prefix as a stream that
+   simply ends (a one-cue file).  The harness's failing reader (stl_io.go) fails with and without data and then is
+   sticky, reports end-of-file, or resumes. *)
+From Astisub Require Import Model.Stl Model.StlIO Proofs.StlIOWithData.
+Theorem C18_read_stl_fault_with_data : forall ign data k counts,
+  exists e, read_stl_fail_at_wd ign data k counts = Err e /\ e <> EOther.
+Proof. intros ign data k counts. exact (read_stl_fail_wd_err_genuine ign (firstn k data) counts). Qed.
+Example C18_read_stl_fault_example :
+  length wd_ex_file = 1408%nat /\
+  read_stl_fail_at_wd false wd_ex_file 1152 nil = Err EIO /\ read_stl_fail_at false wd_ex_file 1152 nil = Err EIO /\
+  read_stl_fail_at_wd false wd_ex_file 1024 nil = Err EIO /\
+  read_stl_fail_at_wd false wd_ex_file 1408 (1024 :: 128 :: 128 :: 128 :: nil)%nat = Err EIO /\
+  match read_stl false (firstn 1152 wd_ex_file) with Ok d => length (rd_items d) = 1%nat | _ => False end.
+Proof. exact wd_ex. Qed.
+Print Assumptions C18_read_stl_fault_with_data.
+Print Assumptions C18_read_stl_fault_example.
